@@ -414,6 +414,32 @@ def F24_degenerate_cluster_singular():
             "detail": f"Sampler(d=3, defaults: n_particles=6, clustering on).run(48), seed 15 -> {err or 'completes'}"}
 
 
+def F25_import_aliases_exported_dict():
+    """export -> import -> the caller writes to / clears what to_dict() returned: the committed history must not change"""
+    from tempest.state_manager import StateManager
+    sm = StateManager(2)
+    for t in range(2):
+        sm.set_current("u", np.full((3, 2), 0.1 * (t + 1)))
+        sm.set_current("x", np.zeros((3, 2)))
+        sm.set_current("logl", np.zeros(3))
+        sm.set_current("beta", 0.5)
+        sm.set_current("logz", 0.0)
+        sm.set_current("iter", t)
+        sm.commit_current_to_history()
+    d = sm.to_dict()
+    sm.update_from_dict(d)
+    other = StateManager.from_dict(d)
+    before = sm.get_history("u").copy()
+    before_o = other.get_history("u").copy()
+    n0 = len(sm.get_history("beta"))
+    d["_history"]["u"][0][:] = 99.0
+    d["_history"]["beta"].clear()
+    changed = not np.array_equal(before, sm.get_history("u")) or not np.array_equal(before_o, other.get_history("u"))
+    shrunk = len(sm.get_history("beta")) != n0 or len(other.get_history("beta")) != n0
+    return {"fails": bool(changed or shrunk),
+            "detail": f"history changed by writing to the exported dict: {changed}; committed iterations lost by clearing an exported list: {shrunk}"}
+
+
 ALL = {k: v for k, v in list(globals().items()) if k[:1] == "F" and callable(v)}
 
 if __name__ == "__main__":
